@@ -334,6 +334,10 @@ def run_case(case: dict, T: float) -> dict:
     else:
         pa = pa.unwrap()
     fmts = {}
+    names = [n for n, _ in case["formats"]]
+    if len(set(names)) != len(names):
+        # only the CLI can be asked this; it must answer "mentioned multiple times" with exit 1
+        out.setdefault("problem", "Problem:DuplicateFormat")
     for name, f in case["formats"]:
         st, pf = bounded(T, parse_format, f)
         if st != "ok":
